@@ -696,10 +696,15 @@ pub fn header_menu(i: usize) -> Vec<u8> {
         10 => b"PROXY TCP6 ::ffff:10.1.1.1 2001:db8::99 4000 25565\r\n".to_vec(),
         11 => v2_tcp4([10, 1, 1, 3]),
         12 => b"PROXY TCP5 10.1.1.1 10.9.9.9 4000 25565\r\n".to_vec(),     // unknown protocol family
-        _ => v2_tcp6("2001:db8::2".parse().unwrap()),
+        13 => v2_tcp6("2001:db8::2".parse().unwrap()),
+        // IPv4 texts that are not the canonical dotted decimal of any address (std refuses them; the model's parser decides)
+        14 => b"PROXY TCP4 010.1.1.1 10.9.9.9 4000 25565\r\n".to_vec(),
+        15 => b"PROXY TCP4 10.1.1.2 10.9.9.256 4001 25565\r\n".to_vec(),
+        16 => b"PROXY TCP4 10.1.1 10.9.9.9 4000 25565\r\n".to_vec(),
+        _ => b"PROXY TCP4 255.255.255.255 0.0.0.0 4000 25565\r\n".to_vec(),
     }
 }
-pub const MENU: usize = 14;
+pub const MENU: usize = 18;
 
 #[derive(Clone, Debug, PartialEq)]
 enum HClass { Source(IpAddr), NoAddr, Invalid }
@@ -831,7 +836,7 @@ fn c15_case(req: &str) -> Case {
         }
         if let Some(srv) = &srv { srv.stop.cancel(); }
         // for the parser model: the raw first segments, std::net's verdict on every address text of the menu, and the address ids
-        let texts = ["10.1.1.1", "10.1.1.2", "10.1.1.3", "10.9.9.9", "999.1.1.1", "2001:db8::1", "2001:db8::2", "2001:db8::99", "::ffff:10.1.1.1"];
+        let texts = ["10.1.1.1", "10.1.1.2", "10.1.1.3", "10.9.9.9", "999.1.1.1", "010.1.1.1", "10.9.9.256", "10.1.1", "255.255.255.255", "0.0.0.0", "2001:db8::1", "2001:db8::2", "2001:db8::99", "::ffff:10.1.1.1"];
         let ip4o: Vec<String> = texts.iter().map(|t| format!("{}:{}", hex(t.as_bytes()), t.parse::<Ipv4Addr>().map_or("-".to_string(), |a| hex(&a.octets())))).collect();
         let ip6o: Vec<String> = texts.iter().map(|t| format!("{}:{}", hex(t.as_bytes()), t.parse::<std::net::Ipv6Addr>().map_or("-".to_string(), |a| hex(&a.octets())))).collect();
         let mut idtab: Vec<String> = vec![];
@@ -888,7 +893,7 @@ fn c15_burst(req: &str, proxy: bool, allowed: (bool, bool), allow: &str, limit: 
     let mut why = vec![];
     if served != budget { why.push(format!("{n} simultaneous connections of one address with a budget of {budget}: {served} were served")); }
     if observed.iter().any(|o| !(o.starts_with('S') || o == "R" || o == "C")) { why.push(format!("outcomes other than served/turned away: {:?}", observed.iter().filter(|o| !(o.starts_with('S') || *o == "R" || *o == "C")).collect::<Vec<_>>())); }
-    let texts = ["10.1.1.1", "10.1.1.2", "10.1.1.3", "10.9.9.9", "999.1.1.1", "2001:db8::1", "2001:db8::2", "2001:db8::99", "::ffff:10.1.1.1"];
+    let texts = ["10.1.1.1", "10.1.1.2", "10.1.1.3", "10.9.9.9", "999.1.1.1", "010.1.1.1", "10.9.9.256", "10.1.1", "255.255.255.255", "0.0.0.0", "2001:db8::1", "2001:db8::2", "2001:db8::99", "::ffff:10.1.1.1"];
     let conn_tok = format!("{peer}/{}", match &class { HClass::Source(_) => format!("s{id}"), HClass::NoAddr => "n".into(), HClass::Invalid => "i".into() });
     let request = format!("c15.run proxy={} allow={allow} limit={} via=listener burst=1 hdrs={} login=0 conns={}", u8::from(proxy), limit.map_or("off".to_string(), |n| n.to_string()),
         kvs(req, "hdrs").unwrap(), vec![conn_tok; n].join(";"));
